@@ -44,6 +44,33 @@ pub fn level_of(prop: &str) -> &'static str {
     }
 }
 
+pub fn run_prop(prop: &str, rep: &mut Report) -> bool {
+    match prop {
+        "C01" => c01::run(rep),
+        "C02" => c02::run(rep),
+        "C03" => c03::run(rep),
+        "C04" => c04::run(rep),
+        "C05" => c05::run(rep),
+        "C06" => c06::run(rep),
+        "C07" => c07::run(rep),
+        "C08" => c08::run(rep),
+        "C09" => c09::run(rep),
+        "C10" => c10::run(rep),
+        "C11" => c11::run(rep),
+        "C12" => c12::run(rep),
+        "C13" => c13::run(rep),
+        "C14" => c14::run(rep),
+        "C15" => c15::run(rep),
+        "C16" => c16::run(rep),
+        "C17" => c17::run(rep),
+        "C18" => c18::run(rep),
+        "C19" => c19::run(rep),
+        "C20" => c20::run(rep),
+        _ => return false,
+    }
+    true
+}
+
 pub fn dispatch(prop: &str, tier: &str, seed: u64, only: Option<(String, u64)>) -> i32 {
     if tier != "quick" && tier != "thorough" {
         eprintln!("tier must be quick or thorough");
@@ -53,32 +80,13 @@ pub fn dispatch(prop: &str, tier: &str, seed: u64, only: Option<(String, u64)>) 
     let mut rep = Report::new(prop, tier, seed, level_of(prop));
     let replaying = only.is_some();
     rep.only = only;
-    match prop {
-        "C01" => c01::run(&mut rep),
-        "C02" => c02::run(&mut rep),
-        "C03" => c03::run(&mut rep),
-        "C04" => c04::run(&mut rep),
-        "C05" => c05::run(&mut rep),
-        "C06" => c06::run(&mut rep),
-        "C07" => c07::run(&mut rep),
-        "C08" => c08::run(&mut rep),
-        "C09" => c09::run(&mut rep),
-        "C10" => c10::run(&mut rep),
-        "C11" => c11::run(&mut rep),
-        "C12" => c12::run(&mut rep),
-        "C13" => c13::run(&mut rep),
-        "C14" => c14::run(&mut rep),
-        "C15" => c15::run(&mut rep),
-        "C16" => c16::run(&mut rep),
-        "C17" => c17::run(&mut rep),
-        "C18" => c18::run(&mut rep),
-        "C19" => c19::run(&mut rep),
-        "C20" => c20::run(&mut rep),
-        _ => {
-            eprintln!("unknown property {}", prop);
-            return 2;
-        }
+    if !run_prop(prop, &mut rep) {
+        eprintln!("unknown property {}", prop);
+        return 2;
     }
+    // verdicts can flip between build profiles (debug_assert!, overflow checks, cfg(debug_assertions)):
+    // the whole workload is repeated by a release build of the harness and of log4rs, both tiers
+    subrun::merge(&mut rep, "L4V_BIN_RELEASE", prop, "release");
     if replaying {
         // a replay executes one case: coverage floors do not apply
         rep.inconclusive.clear();
